@@ -4,6 +4,7 @@ import (
 	"fmt"
 	"go/types"
 	"os"
+	"path/filepath"
 
 	"golang.org/x/tools/go/packages"
 	"golang.org/x/tools/go/ssa"
@@ -19,8 +20,25 @@ type Program struct {
 	Dir    string
 }
 
-// RepoDir is the repository under verification.
+// RepoDir is the repository under verification. GOVC_REPO redirects a run to a scratch copy (used
+// by the seed tools, so that /repo itself is never patched); such a run writes its queries, replays
+// and evidence under GOVC_OUT instead of /verif/out and /verif/evidence.
 var RepoDir = "/repo"
+
+// EvidenceDir is where evidence files go ("" = <root>/evidence).
+var EvidenceDir = ""
+
+func init() {
+	if d := os.Getenv("GOVC_REPO"); d != "" {
+		RepoDir = d
+		out := os.Getenv("GOVC_OUT")
+		if out == "" {
+			out = filepath.Join(os.TempDir(), "govc-out")
+		}
+		OutDir = filepath.Join(out, "out")
+		EvidenceDir = filepath.Join(out, "evidence")
+	}
+}
 
 // Load loads the packages of /repo (non-test files, tag verif) and builds SSA.
 func Load(dir string, patterns ...string) (*Program, error) {
